@@ -922,6 +922,7 @@ class VectorStarSet(object):
         """
         VSSet = cls(None)  # initialize
         VSSet.starset = SSet
+        VSSet.generatedfor = (SSet.Nshells, SSet.Nstates)
         VSSet.Nvstars = HDF5group['Nvstars'][()]
         VSSet.vecpos = flatlistindex2doublelist(HDF5group['vecposlist'][()],
                                                 HDF5group['vecposindex'][()])
